@@ -10,13 +10,15 @@
      out        : aval -> ty          output.Converter.value_to_pytd_type
      out_cls    : aval -> ty          output.Converter.value_instance_to_pytd_type(v, instance=None)
      join       : list ty -> ty       pytd_utils.JoinTypes
+     store_name : list aval -> list aval  vm._process_annotations when the imported value is stored under a name
      out_top    : list aval -> tydef  tracer_vm.CallTracer.pytd_for_types for one module-level name
      nf                               the identifications under which two pytd types are "the same type"
      sort_ty                          canonical ordering of union members (CanonicalOrderingVisitor)
 
    Conventions: a cfg.Variable is the list of its bindings' data in insertion order (every binding is taken
    to be visible at the exit node); Variable.AddBinding's de-duplication of *identical* data objects is not
-   modelled (it can only remove a value whose pytd type JoinTypes would de-duplicate anyway); the lazily
+   modelled (it can only remove a value whose pytd type JoinTypes would de-duplicate anyway) except for its one
+   observable effect, on the `== [unsolvable]` test (see [only_unsolvable]); the lazily
    loaded instance_type_parameters of an Instance of a ParameterizedClass are materialised when the instance
    is created ([VPInstance]).  Classes are identified by numbers; [arity] is the length of a class's template.
    Not modelled (outside the type-expression fragment; covered by the end-to-end oracle only): TypeParameter /
@@ -70,8 +72,11 @@ Definition is_nothing (t : ty) : bool := match t with TNothing => true | _ => fa
 Definition is_union (t : ty) : bool := match t with TUnion _ => true | _ => false end.
 Definition is_nonetype (t : ty) : bool := match t with TClass c => c =? none_id | _ => false end.
 Definition is_unsolvable (v : aval) : bool := match v with VUnsolvable => true | _ => false end.
+(* `values == [unsolvable]` in output.py.  Variable.AddBinding / PasteVariable keep one binding per identical
+   data object and Unsolvable is a singleton, so the real variable is [unsolvable] exactly when the modelled
+   list is non-empty and holds nothing but Unsolvable (e.g. the instances of Union[Any, type]). *)
 Definition only_unsolvable (vs : list aval) : bool :=
-  match vs with [VUnsolvable] => true | _ => false end.
+  match vs with [] => false | _ => forallb is_unsolvable vs end.
 
 (* ------------------------------------------------------------------------------------------ *)
 (* pytd equality (msgspec structs; UnionType compares its members as a set) *)
@@ -312,6 +317,20 @@ Definition out_top (vals : list aval) : tydef :=
       if forallb is_param_or_union vals then DAlias (join (map out_cls vals))    (* type alias *)
       else DConst (join (map out vals))
   end.
+
+(* vm.VirtualMachine._pop_and_store -> _process_annotations: when every binding of the value being stored is a
+   NestedAnnotation (ParameterizedClass incl. Tuple/Callable classes, Union) the variable is read as ONE type
+   annotation: a single binding is kept (extract_annotation returns it), several bindings are not "constant":
+   [invalid-annotation] is reported and the name becomes Unsolvable. *)
+Definition store_name (vals : list aval) : list aval :=
+  match vals with
+  | [] => []
+  | [v] => [v]
+  | _ => if forallb is_param_or_union vals then [VUnsolvable] else vals
+  end.
+
+(* what B's stub says about  `from A import x as y`  when A's stub says  x: t *)
+Definition downstream (t : ty) : tydef := out_top (store_name (conv_var t)).
 
 End WithClassTable.
 
